@@ -7,6 +7,9 @@ Part 1: the file store (`Store/Load/Delete/Exists/Stat/List`) over the simple ke
 
 Part 2: `Lock/renew/Unlock` over the lease keyspace of kv/memory with EXPLICIT time (`now` in
 nanoseconds, advanced only by `tick`). A lease token is its expiry time, 0 = free, as in kv/memory/lease.go.
+
+Part 3: the renewal goroutine of each holder (`startLeaseRenewal` / `renewLease`) and the end of the context
+`Lock` was called with.
 -/
 namespace Specter.C49
 
@@ -218,5 +221,82 @@ def lstep (s : LockSt) : Ev → LockSt × LOut
 def lrun (s : LockSt) : List Ev → LockSt
   | [] => s
   | e :: es => lrun (lstep s e).1 es
+
+/-! ## Part 3: the renewal goroutine of a holder, and the context `Lock` was called with
+
+`Lock(ctx, key)` uses `ctx` only for the `KV.Acquire` calls. On success `startLeaseRenewal` creates the lease
+holder with a lifetime context derived from `context.Background()` and starts `go renewLease`: a ticker that
+calls `renewLeaseOnce` every `ttl/4` until (a) `Unlock` cancels that lifetime context (`cancelFn` + `Wait`), or
+(b) one of ITS renewals fails (`return` after logging; the entry stays in `leaseToken`). Nothing else ends it: in
+particular not the end (cancellation, deadline) of the context `Lock` was called with — a caller that wraps the
+acquisition in `ctx, cancel := context.WithTimeout(…); defer cancel()` still holds the lock afterwards. -/
+
+/-- what `startLeaseRenewal` derives the lease holder's lifetime context from -/
+inductive LeaseParent where
+  | background   -- `context.WithCancel(context.Background())` — acme/storage.go
+  | acquireCtx   -- the context passed to `Lock` — NOT what the code does; kept to show what the property needs
+  deriving Repr, DecidableEq
+
+/-- acme/storage.go `startLeaseRenewal`: `leaseCtx, leaseCancel := context.WithCancel(context.Background())` -/
+def leaseParent : LeaseParent := .background
+
+structure RSt where
+  lock : LockSt := {}
+  tickers : List Nat := []             -- instances whose renewal goroutine (`renewLease`) is running
+  deriving Repr
+
+inductive REv where
+  | ev (e : Ev)          -- as in part 2; `.renew i ttl` now reads "the ticker period of instance i's goroutine elapses"
+  | kvFault (i : Nat)    -- the KV fails (transport error) the renewal attempted by i's ticker: the goroutine returns
+  | ctxDone (i : Nat)    -- the context instance i called `Lock` with is cancelled / reaches its deadline
+  deriving Repr
+
+def LOut.isAcquired : LOut → Bool
+  | .acquired _ => true
+  | _ => false
+
+def LOut.isRenewed : LOut → Bool
+  | .renewed _ => true
+  | _ => false
+
+def stopTicker (ts : List Nat) (i : Nat) : List Nat := ts.filter (· != i)
+def startTicker (ts : List Nat) (i : Nat) : List Nat := i :: ts.filter (· != i)
+
+/-- one step of the storage instances with their renewal goroutines, for either choice of the lifetime context's
+parent -/
+def rstepP (p : LeaseParent) (s : RSt) : REv → RSt × LOut
+  | .ev (.lockTry i ttl) =>
+    -- `Acquire`; on success `startLeaseRenewal`: store the holder, `go renewLease`
+    let r := lstep s.lock (.lockTry i ttl)
+    ({ lock := r.1, tickers := if r.2.isAcquired then startTicker s.tickers i else s.tickers }, r.2)
+  | .ev (.renew i ttl) =>
+    -- `case <-ticker.C` of `renewLease`: only while the goroutine runs; an error ends the goroutine
+    if i ∈ s.tickers then
+      let r := lstep s.lock (.renew i ttl)
+      ({ lock := r.1, tickers := if r.2.isRenewed then s.tickers else stopTicker s.tickers i }, r.2)
+    else (s, .none)
+  | .ev (.unlock i) =>
+    -- `LoadAndDelete` (absent: return), `cancelFn()`, `Wait()`, `Release`
+    let r := lstep s.lock (.unlock i)
+    ({ lock := r.1, tickers := if r.2 = .notHolder then s.tickers else stopTicker s.tickers i }, r.2)
+  | .ev (.renewLock i dur ttl) =>
+    -- `RenewLockLease`: its error goes to the caller, the goroutine is not involved
+    let r := lstep s.lock (.renewLock i dur ttl)
+    ({ s with lock := r.1 }, r.2)
+  | .ev (.tick d) => ({ s with lock := (lstep s.lock (.tick d)).1 }, .none)
+  | .kvFault i => ({ s with tickers := stopTicker s.tickers i }, .none)
+  | .ctxDone i =>
+    match p with
+    | .background => (s, .none)        -- `leaseCtx` does not descend from the caller's context
+    | .acquireCtx => ({ s with tickers := stopTicker s.tickers i }, .none)
+
+/-- the code: the lifetime context's parent is `context.Background()` -/
+def rstep (s : RSt) (e : REv) : RSt × LOut := rstepP leaseParent s e
+
+def rrunP (p : LeaseParent) (s : RSt) : List REv → RSt
+  | [] => s
+  | e :: es => rrunP p (rstepP p s e).1 es
+
+def rrun (s : RSt) (es : List REv) : RSt := rrunP leaseParent s es
 
 end Specter.C49
